@@ -74,12 +74,28 @@ def _worker(task):
     kms = [('keymap()', lambda: km.keymap()), ('stringmap(flat=False)', lambda: km.stringmap(flat=False))]
     if tier == 'thorough':
         kms.append(('picklemap(pickle)', lambda: km.picklemap(serializer='pickle')))
-    for form in ('function', 'method', 'method-noself'):
+    forms = ['function', 'method', 'method-noself'] + (['partial(boundmethod,1)'] if plain.npos >= 1 else [])
+    for form in forms:
         # bind every call once
         ref = plain.compile() if form == 'function' else meth.compile()
         inst = None
         bound = []
+        if form == 'partial(boundmethod,1)':
+            import functools
+            # the partial fixes the first declared parameter: what remains is the signature without it
+            rest = Sig(plain.npos - 1, min(plain.ndef, plain.npos - 1), plain.varargs, plain.kwonly, plain.varkw,
+                       names=plain.pos[1:] if plain.npos > 1 else None)
+            rest.pos = plain.pos[1:]
+            refp = functools.partial(callmc.holder_class({'f': meth.compile()})().f, 1)
         for (a, kw) in calls:
+            if form == 'partial(boundmethod,1)':
+                if plain.pos[0] in dict(kw):
+                    continue
+                b = callmc.bind_by_call(refp, a, kw)
+                if b is not None:
+                    b = tuple(x for x in b if x[0] not in ('self', plain.pos[0]))
+                    bound.append(((a, kw), b))
+                continue
             args = a if form == 'function' else (None,) + a
             b = callmc.bind_by_call(ref, args, kw)
             if b is not None:
@@ -103,6 +119,13 @@ def _worker(task):
                     prefix = ()
                     counter = f.CALLS
                     kmname = '%s %s.%s_cache(ignore=%r)' % (kmname, mod.__name__, alg, ign_arg)
+                elif form == 'partial(boundmethod,1)':
+                    import functools
+                    g = meth.compile()
+                    pm = functools.partial(callmc.holder_class({'f': g})().f, 1)
+                    W = klepto.inf_cache(keymap=mk(), ignore=ign)(pm)
+                    prefix = ()
+                    counter = g.CALLS
                 elif form == 'function':
                     f = plain.compile()
                     W = klepto.inf_cache(keymap=mk(), ignore=ign)(f)
@@ -119,7 +142,7 @@ def _worker(task):
                 bykey = {}
                 for (a, kw), b in bound:
                     res['counts']['evaluations'] += 1
-                    mb = masked(plain, b, ign, selfslot=(form == 'method-noself'))
+                    mb = masked(rest if form == 'partial(boundmethod,1)' else plain, b, ign, selfslot=(form == 'method-noself'))
                     try:
                         key = W.key(*(prefix + a), **dict(kw))
                     except Exception as e:
